@@ -30,6 +30,10 @@ pub struct Link {
     /// requesting links only: the whole function is written on one line
     #[serde(default)]
     pub oneline: bool,
+    /// requesting links only: the file holds an earlier, plain definition of the same name (module-level
+    /// fixture + class-level override, or a redefinition further down): the parameter denotes that one
+    #[serde(default)]
+    pub dup_before: bool,
 }
 
 fn fxdef(l: &Link) -> Item {
@@ -58,6 +62,9 @@ impl Chain {
             let mut items = vec![];
             let own = if k == d - 1 { self.links.iter().find(|l| l.pos == 0) } else { None };
             if let Some(l) = own {
+                if l.dup_before && l.requests {
+                    items.push(Item::fixture("fx", &[]));
+                }
                 if !l.below {
                     items.push(fxdef(l));
                 }
@@ -91,7 +98,7 @@ impl Chain {
                     // a dependent fixture written above the (possibly self-requesting) definition
                     files.push(FileSpec::new(
                         &format!("{}conftest.py", dir),
-                        vec![Item::fixture(&format!("c{}", lvl), &["fx"]), fxdef(l)],
+                        if l.dup_before && l.requests { vec![Item::fixture("fx", &[]), Item::fixture(&format!("c{}", lvl), &["fx"]), fxdef(l)] } else { vec![Item::fixture(&format!("c{}", lvl), &["fx"]), fxdef(l)] },
                     ));
                 }
             } else if l.pos == d + 1 {
@@ -118,16 +125,16 @@ impl Chain {
             }
             let positions: Vec<usize> = (0..npos).filter(|p| mask & (1 << p) != 0).collect();
             // per link options
-            // (imported, requests, below, wrapped, oneline)
-            let opts: Vec<Vec<(bool, bool, bool, bool, bool)>> = positions
+            // (imported, requests, below, wrapped, oneline, dup_before)
+            let opts: Vec<Vec<(bool, bool, bool, bool, bool, bool)>> = positions
                 .iter()
                 .map(|&p| {
                     if p == 0 {
-                        vec![(false, false, false, false, false), (false, true, false, false, false), (false, false, true, false, false), (false, true, true, false, false), (false, true, false, true, false), (false, true, true, true, false), (false, true, false, false, true), (false, true, true, false, true)]
+                        vec![(false, false, false, false, false, false), (false, true, false, false, false, false), (false, false, true, false, false, false), (false, true, true, false, false, false), (false, true, false, true, false, false), (false, true, true, true, false, false), (false, true, false, false, true, false), (false, true, true, false, true, false), (false, true, false, false, false, true), (false, true, false, true, false, true)]
                     } else if p <= depth {
-                        vec![(false, false, false, false, false), (false, true, false, false, false), (true, false, false, false, false), (true, true, false, false, false), (false, true, false, true, false), (true, true, false, true, false), (false, true, false, false, true)]
+                        vec![(false, false, false, false, false, false), (false, true, false, false, false, false), (true, false, false, false, false, false), (true, true, false, false, false, false), (false, true, false, true, false, false), (true, true, false, true, false, false), (false, true, false, false, true, false), (false, true, false, false, false, true)]
                     } else {
-                        vec![(false, false, false, false, false)]
+                        vec![(false, false, false, false, false, false)]
                     }
                 })
                 .collect();
@@ -145,6 +152,7 @@ impl Chain {
                             below: opts[i][idx[i]].2,
                             wrapped: opts[i][idx[i]].3,
                             oneline: opts[i][idx[i]].4,
+                            dup_before: opts[i][idx[i]].5,
                         })
                         .collect(),
                 });
